@@ -1,5 +1,6 @@
 import Jp.Lemmas.Bridge
 import Jp.Lemmas.C15Helpers
+import Jp.Lemmas.C15Bounds
 /-
   C15 — Resolve and assign errors locate the failing token by index and byte offset.
 -/
@@ -19,6 +20,7 @@ open Jp Jp.Spec
 -- OBLIGATIONS
 -- resolve_err_locates resolveMut_err_locates assign_err_locates resolve_payload assign_payload
 -- label_covers_token
+-- error_offsets_bounded assign_error_offsets_bounded
 
 /-! ### the obligations -/
 
@@ -103,6 +105,21 @@ theorem label_covers_token (p : Bytes) (position : Nat) (tok : Bytes) (hp : vali
   refine ⟨off ts position + 1, tok.length, by simp [walkLabel, hg, hlt], ?_⟩
   rw [← List.drop_drop, hpe, drop_off, drop_of_get ts position tok ht, ofToks_cons]
   simp
+
+/-- the `usize` accumulators `position` / `offset` of the resolve walk, as reported by an error, lie
+    strictly inside the pointer text (and the token count is at most its length): they are far from
+    `usize::MAX` for any text that fits in memory -/
+theorem error_offsets_bounded (D : Val) (p : Bytes) (e : ResolveErr) (hp : validPtr p = true)
+    (h : resolve D p = .err e) :
+    e.offset < p.length ∧ e.position < count p ∧ count p ≤ p.length := by
+  obtain ⟨h1, h2⟩ := locates_bounded p _ _ _ hp (resolve_err_locates D p e hp h)
+  exact ⟨h1, h2, Bounds.count_le_length p hp⟩
+
+/-- the same for the assign walk -/
+theorem assign_error_offsets_bounded (D v : Val) (p : Bytes) (e : AssignErr) (hp : validPtr p = true)
+    (h : (assign D p v).2 = .err e) :
+    e.offset < p.length ∧ e.position < count p :=
+  locates_bounded p _ _ _ hp (assign_err_locates D v p e hp h)
 
 example : Locates [47, 97, 47] 1 2 (some (2, 0)) := by
   refine ⟨[], by decide, by decide, by decide, by decide, 2, 0, rfl, rfl, by decide, by decide, by decide⟩
